@@ -1561,6 +1561,13 @@ namespace bloch::compiler {
                                  "'" + fn->name + "' is already declared in this scope");
             }
             declareFunction(fn->name);
+            // Record the signature now, not when the declaration is visited: calls are checked
+            // against it, and a call may precede the declaration in the file (or sit in a class
+            // method, which is analysed before any function body).
+            FunctionInfo info;
+            info.returnType = typeFromAst(fn->returnType.get());
+            for (auto& p : fn->params) info.paramTypes.push_back(typeFromAst(p->type.get()));
+            m_functionInfo[fn->name] = info;
         }
         for (auto& cls : program.classes)
             if (cls)
